@@ -239,23 +239,20 @@ class CallTimeout(BaseException):
 
 @contextmanager
 def call_watchdog(ctx, seconds: int, what: str):
-    """generous wall-clock watchdog around one library call.  Firing is INCONCLUSIVE (tally 'timeout:*'), never a violation."""
+    """generous *CPU-time* watchdog around one library call (ITIMER_PROF counts this process's user+system time only,
+    so a loaded machine cannot make it fire).  Firing is INCONCLUSIVE (tally 'timeout:*'), never a violation."""
     import signal
 
     def _h(_s, _f):
         raise CallTimeout(what)
 
-    old = signal.signal(signal.SIGALRM, _h)
-    signal.alarm(seconds)
+    old = signal.signal(signal.SIGPROF, _h)
+    signal.setitimer(signal.ITIMER_PROF, float(seconds))
     try:
         yield
     except CallTimeout:
         ctx.tally(f"timeout:{what}")
-        ctx.note(f"watchdog fired after {seconds}s in {what}")
+        ctx.note(f"watchdog fired after {seconds}s of CPU time in {what}")
     finally:
-        signal.alarm(0)
-        signal.signal(signal.SIGALRM, old)
-
-
-def skip():
-    raise _Skip()
+        signal.setitimer(signal.ITIMER_PROF, 0.0)
+        signal.signal(signal.SIGPROF, old)
